@@ -32,6 +32,17 @@ static void checkPublished(const lg::Pair &p, const pub::L &L) {
   Last &last = g_last[p.id];
   if (!last.valid) return;
   std::vector<unsigned char> bytes = unhex(last.payloadHex);
+  // repeated records: the count field on the wire and the number of records that follow must agree (count NA = none)
+  for (int r_ = 0; r_ < pub::nRepeats; r_++) {
+    const pub::Rep &R = pub::repeats[r_];
+    if (R.pgn != p.pgn || strchr(L.id, '_')) continue;      // once per message (not again for a path table)
+    bool okc; u64 cnt = bitsAt(bytes, R.off, 8, okc);
+    C.count("record_count_checks");
+    size_t want = (size_t)R.base + (size_t)R.rec * (size_t)((!okc || cnt == 255) ? 0 : cnt);
+    if (!okc || bytes.size() != want)
+      C.fail(fieldKey(p.id, "record count"), "count field says %llu, payload has %zu bytes, the published layout needs %zu", cnt, bytes.size(), want);
+    else C.nontrivial(std::string(p.id) + "/records/" + std::to_string(cnt));
+  }
   for (int k = 0; k < L.n; k++) {
     const pub::F &f = L.f[k];
     if (f.konst >= 0) {          // the function has no parameter for this field and must write this constant
@@ -237,7 +248,7 @@ int main(int argc, char **argv) {
   }
   for (int k = 0; k < (C.thorough ? 300 : 40); k++) {
     std::string s = "pgnlist " + std::to_string(r.below(2));
-    int n = k < 3 ? k : (int)r.below(71);
+    int n = k < 2 ? k : k == 2 ? 74 : k == 3 ? 73 : (int)r.below(75);      // 0, 1, the maximum (74 fit a fast packet), random
     for (int i = 0; i < n; i++) s += " " + std::to_string(1 + r.below((1UL << 24) - 1));
     exec15(s);
   }
